@@ -62,7 +62,7 @@ def add_prince(rng, spec):
         extra.append('W')
     labs += extra
     rng.shuffle(labs)
-    probs = rulesets.prob_vector(rng, len(labs), rng.choice([spec.get('pool', 'counts'), 'counts', 'equal']))
+    probs = rulesets.prob_vector(rng, len(labs), rng.choice([spec.get('pool', 'counts'), 'counts', 'equal', 'rare']))
     spec['prince'] = [[l, p] for l, p in zip(labs, probs)]
     return spec
 
